@@ -577,6 +577,16 @@ class BitStream(ConstBitStream, bitstring.BitArray):
             self._bitstore = self._bitstore._copy()
             self._bitstore.immutable = False
 
+    def __setattr__(self, attribute, value) -> None:
+        if attribute in ('_pos', '_bitstore', '_filename'):
+            object.__setattr__(self, attribute, value)
+            return
+        length_before = len(self)
+        super().__setattr__(attribute, value)
+        if len(self) != length_before:
+            # Setting via an interpretation (e.g. s.hex = 'ff' or s.u8 = 3) changed the length, so reset the bit position.
+            self._pos = 0
+
     def __copy__(self) -> BitStream:
         """Return a new copy of the BitStream."""
         s_copy = object.__new__(BitStream)
